@@ -345,3 +345,9 @@ pub fn gather_index(w: u32, h: u32, x: f32, y: f32) -> Option<u32> {
     let pm = crate::Pixmap::new(w, h)?;
     Some(crate::pipeline::verif_gather_ix(pm.as_ref(), x, y))
 }
+
+/// The tiles `DrawTiler` splits a `width` x `height` target into: (x, y, w, h) each; `None` when no tiling is needed.
+pub fn draw_tiles(width: u32, height: u32) -> Option<Vec<(u32, u32, u32, u32)>> {
+    let tiler = crate::painter::DrawTiler::new(width, height)?;
+    Some(tiler.map(|r| (r.x(), r.y(), r.width(), r.height())).collect())
+}
